@@ -151,6 +151,8 @@ FIRST.update({  # rounds 12 and 13
  "C20g": ("missed", "C20 judges the staleness rule on what the program decides: Venue.tla instances, VenueRisk.tla and the kamino / drift / solend drivers run under C20 with clauses position_in_a_venue_not_refreshed_now_counts_for_nothing / no_*_assessment_on_a_venue_not_refreshed_now / no_price_cached_from_a_venue_not_refreshed_now; driver episodes with a feed older than the venue's last update, which is older than now"),
  "C15h": ("missed (model drift only)", "C15 judged the group-level hold on the group's own copy of the pause (the program's book-keeping); it now carries the latest start any protocol-wide pause ever had: a user is held for 'protocol paused' only within 30 minutes of such a start (d_held_only_within_30min_of_a_protocol_pause_start), and a propagation never stamps the copy later than the pause started (propagation_never_stamps_a_pause_later_than_it_started)"),
  "C18h": ("detected (the clause legacy_rate_defined_beyond_full_utilization was added from the change's description before its first run; the judgement on [0, 1] alone would have missed it, Curve.tla reported it as drift)", "C18: a legacy curve has to be defined on (100 %, 200 %] as well"),
+ "C13k": ("missed", "kill driver (harness/src/drv2.rs): a bank wiped out by bad debt, then every operational state asked for alone and in every order of two (a detour through paused or reduce-only), with deposit / borrow probes; Bkr.tla got the configure_bank{operational_state} action (no kill is reachable in its world, so the dead-bank refusals come from the driver)"),
+ "C05k": ("missed", "RiskCfg / RecvO feed variant: a drop with the spot confidence at the 5 % cap while the time-weighted price lies well above spot (the cap is 5 % of the price it is applied to), followed by liquidation attempts / brackets"),
  "C11j": ("missed", "TxShape Flash6 instance: flash-loan brackets on an account without any position (its end instruction is sent without bank / price accounts)"),
 })
 for d in sorted(os.listdir(os.path.join(ROOT, "seeded"))):
